@@ -1,5 +1,6 @@
 import InfluxQL.Lemmas.Render
 import InfluxQL.Lemmas.ExprRoundTrip
+import InfluxQL.Lemmas.RegexGap
 /-
 Free spelling of expressions (C01 on top of C03).
 
@@ -15,6 +16,19 @@ Part 1: `ScanIgnoreWhitespace` over a gap from a state that *stands at* a cursor
 -/
 namespace InfluxQL.ER
 open InfluxQL Gen
+
+/-- Parameters and table are kept, and the token ring stays within its three slots. -/
+def Keeps (s s' : PState) : Prop := RT.Same s s' ∧ (s.buf.length ≤ 3 → s'.buf.length ≤ 3)
+
+theorem Keeps.refl (s : PState) : Keeps s s := ⟨RT.Same.refl s, id⟩
+theorem Keeps.trans {a b c : PState} (h1 : Keeps a b) (h2 : Keeps b c) : Keeps a c :=
+  ⟨h1.1.trans h2.1, fun h => h2.2 (h1.2 h)⟩
+theorem keeps_unsc (s : PState) : Keeps s (unsc s) := ⟨RT.unsc_same s, id⟩
+
+theorem rawNext_buf_le (regex : Bool) (s : PState) (h : s.buf.length ≤ 3) : (rawNext regex s).2.buf.length ≤ 3 := by
+  by_cases hn : s.n > 0
+  · rw [(rawNext_buffered regex s hn).1]; exact h
+  · rw [(rawNext_fresh regex s (by omega)).1, List.length_take]; omega
 
 /-- What stands after a gap: a text that does not go on with whitespace, and is the end-of-input
 sentinel or starts with another rune. -/
@@ -70,27 +84,27 @@ theorem gap_post_chars {r0 : Cursor} {i : Render.GapItem} {g' : Render.Gap} {pos
   exact h2.1.1.1.1.2
 
 theorem loop_final (f : Nat) (s : PState) (r0 : Cursor) (hl : RT.Look s r0) (hsig : RT.Sig (scan r0).1.tok) :
-    ∃ s1, (scanIWLoop (f + 1)).run s = .ok ((scan r0).1, s1) ∧ RT.Just s1 (scan r0).1 (scan r0).2 ∧ RT.Same s s1 := by
+    ∃ s1, (scanIWLoop (f + 1)).run s = .ok ((scan r0).1, s1) ∧ RT.Just s1 (scan r0).1 (scan r0).2 ∧ Keeps s s1 := by
   obtain ⟨h1, h2, h3⟩ := RT.rawNext_look s r0 hl
   have e : substTok s.params (rawNext false s).1 = (scan r0).1 := by rw [h1, RT.substTok_id hsig.1]
-  refine ⟨(rawNext false s).2, ?_, h2, h3⟩
+  refine ⟨(rawNext false s).2, ?_, h2, h3, rawNext_buf_le false s⟩
   rw [scanIWLoop_run_sig f s (by rw [e]; exact hsig.2.1) (by rw [e]; exact hsig.2.2), pscan_run, e]
 
 theorem loop_skip (f : Nat) (s : PState) (r0 : Cursor) (hl : RT.Look s r0)
     (h : (scan r0).1.tok = .WS ∨ (scan r0).1.tok = .COMMENT) :
     ∃ s1, (scanIWLoop (f + 1)).run s = (scanIWLoop f).run s1 ∧ RT.Look s1 (scan r0).2 ∧ s1.n = 0 ∧
-      s1.r = (scan r0).2 ∧ RT.Same s s1 := by
+      s1.r = (scan r0).2 ∧ Keeps s s1 := by
   obtain ⟨h1, h2, h3⟩ := RT.rawNext_look s r0 hl
   have hb : (scan r0).1.tok ≠ .BOUNDPARAM := by rcases h with h | h <;> (rw [h]; decide)
   have e : substTok s.params (rawNext false s).1 = (scan r0).1 := by rw [h1, RT.substTok_id hb]
-  exact ⟨(rawNext false s).2, scanIWLoop_run_skip f s (by rw [e]; exact h), Or.inl ⟨h2.1, h2.2.2⟩, h2.1, h2.2.2, h3⟩
+  exact ⟨(rawNext false s).2, scanIWLoop_run_skip f s (by rw [e]; exact h), Or.inl ⟨h2.1, h2.2.2⟩, h2.1, h2.2.2, h3, rawNext_buf_le false s⟩
 
 /-- The loop of `ScanIgnoreWhitespace` over a gap, from a state standing at the gap. -/
 theorem loop_gap (post : Str) (hp : PostOK post) (hsig : ∀ r : Cursor, RT.Rem r post → RT.Sig (scan r).1.tok) (n : Nat) :
     ∀ (g : Render.Gap) (f : Nat) (s : PState) (r0 : Cursor), g.length ≤ n → g.length < f → Render.gapOK g = true →
       RT.Look s r0 → RT.Rem r0 (Render.gapText g ++ post) →
       ∃ s1 r', (scanIWLoop f).run s = .ok ((scan r').1, s1) ∧ RT.Rem r' post ∧
-        RT.Just s1 (scan r').1 (scan r').2 ∧ RT.Same s s1 := by
+        RT.Just s1 (scan r').1 (scan r').2 ∧ Keeps s s1 := by
   induction n with
   | zero =>
     intro g f s r0 hgl hf _ hl hr
@@ -133,7 +147,7 @@ theorem scanIW_gap (s : PState) (r0 : Cursor) (g : Render.Gap) (post : Str) (hl 
     (hr : RT.Rem r0 (Render.gapText g ++ post)) (hok : Render.gapOK g = true) (hp : PostOK post)
     (hsig : ∀ r : Cursor, RT.Rem r post → RT.Sig (scan r).1.tok) :
     ∃ s1 r', scanIW.run s = .ok ((scan r').1, s1) ∧ RT.Rem r' post ∧ RT.Just s1 (scan r').1 (scan r').2 ∧
-      RT.Same s s1 := by
+      Keeps s s1 := by
   unfold scanIW
   rw [P.runBind, P.run_get]
   simp only []
@@ -309,6 +323,68 @@ theorem scansAs_op (op : Token) (w k : Str) (h1 : opSpellB op w = true) (h2 : op
     rw [if_neg h'] at h2
     exact scansAs_sym op w k (of_decide_eq_true h1) h2
 
+/-! ## `parseRegex` behind a gap -/
+
+/-- A gap that starts with a comment (or is empty) is a `CommentRun`: comments, each followed by an
+optional maximal whitespace run. -/
+theorem commentRun_gap (post : Str) (hp : NotWsHead post) (n : Nat) :
+    ∀ g : Render.Gap, g.length ≤ n → Render.gapOK g = true → (g = [] ∨ ∃ i g', g = i :: g' ∧ IsComment i.text) →
+      CommentRun post (Render.gapText g) ∧ NotWsHead (Render.gapText g ++ post) := by
+  induction n with
+  | zero =>
+    intro g hl _ _
+    have : g = [] := List.length_eq_zero_iff.mp (by omega)
+    subst this
+    exact ⟨.nil, by simpa using hp⟩
+  | succ n ih =>
+    intro g hl hok hsh
+    rcases hsh with rfl | ⟨i, g', rfl, hcm⟩
+    · exact ⟨.nil, by simpa using hp⟩
+    · rw [Render.gapOK_cons, Bool.and_eq_true] at hok
+      obtain ⟨hws, hok2, hshape⟩ := Render.wsSpan_ok g' hok.2
+      have hlen := Render.wsSpan_length g'
+      have htxt := Render.wsSpan_text g'
+      simp only [List.length_cons] at hl
+      obtain ⟨ih1, ih2⟩ := ih (Render.wsSpan g').2 (by omega) hok2 hshape
+      rw [Render.gapText_cons, htxt]
+      have hw : WsOpt (Render.wsSpan g').1 := by
+        by_cases he : (Render.wsSpan g').1 = []
+        · exact Or.inl he
+        · exact Or.inr ⟨he, hws⟩
+      refine ⟨CommentRun.cons hcm hw ih2 ih1, ?_⟩
+      rw [List.append_assoc]
+      exact notWsHead_comment _ _ hcm
+
+/-- **`parseRegex` behind any gap**, standing before a regex literal: the gap is skipped (the peek,
+`consumeWhitespace`, the comment loop) and the literal is read. -/
+theorem parseRegex_gap_text (s : PState) (g : Render.Gap) (src k : Str) (hn : s.n = 0) (hb : s.buf.length ≤ 3)
+    (hok : Render.gapOK g = true) (hsrc : RT.regexB src = true)
+    (h : s.r.chars = Render.gapText g ++ ('/' :: (escapeSlashes src ++ '/' :: k))) :
+    ∃ lx s', parseRegex.run s = .ok (some (.regex src), s') ∧ RT.Just s' lx s'.r ∧ s'.r.chars = k ∧ Keeps s s' := by
+  have hgood : Good s := ⟨by omega, hb⟩
+  obtain ⟨hws, hok2, hshape⟩ := Render.wsSpan_ok g hok
+  have htxt := Render.wsSpan_text g
+  have hpost : NotWsHead ('/' :: (escapeSlashes src ++ '/' :: k)) := by
+    intro c x e
+    simp only [List.cons.injEq] at e
+    rw [← e.1]; decide
+  obtain ⟨hcr, hnw⟩ := commentRun_gap _ hpost _ (Render.wsSpan g).2 (Nat.le_refl _) hok2 hshape
+  have hw0 : WsOpt (Render.wsSpan g).1 := by
+    by_cases he : (Render.wsSpan g).1 = []
+    · exact Or.inl he
+    · exact Or.inr ⟨he, hws⟩
+  obtain ⟨s', hat, hrun⟩ := parseRegex_skips_gap s hn hgood (Render.wsSpan g).1 (Render.gapText (Render.wsSpan g).2) _
+    (by rw [h, htxt, List.append_assoc]) hw0 hnw hcr
+  have hde : dropEof ('/' :: (escapeSlashes src ++ '/' :: k)) = '/' :: (escapeSlashes src ++ '/' :: k) := by
+    have : ¬ ('/' : Char) = eofRune := by decide
+    simp [dropEof, this]
+  obtain ⟨lx, s'', h1, h2, h3, h4⟩ := RT.parseRegexSkip_text s' src k hat.n0 hsrc (by rw [hat.chars, hde])
+  have hrun' : parseRegex.run s = .ok (some (.regex src), s'') := by rw [hrun]; exact h1
+  have hwp := parseRegex_wp s hgood (by omega)
+  unfold wp at hwp
+  rw [hrun'] at hwp
+  exact ⟨lx, s'', hrun', h2, h3, ⟨⟨h4.1.trans hat.params, h4.2.trans hat.lower⟩, fun _ => hwp.1.good.hb⟩⟩
+
 /-! ## Part 3: spelled expressions -/
 
 mutual
@@ -324,6 +400,8 @@ mutual
   inductive SOps where
     | nil
     | cons (g1 : Render.Gap) (op : Token) (w : Str) (g2 : Render.Gap) (a : SAtom) (rest : SOps)
+    /-- `=~` / `!~` and a regex literal with source `src` -/
+    | consRe (g1 : Render.Gap) (op : Token) (w : Str) (g2 : Render.Gap) (src : Str) (rest : SOps)
 end
 
 mutual
@@ -336,6 +414,8 @@ mutual
   def SOps.text : SOps → Str
     | .nil => []
     | .cons g1 _ w g2 a rest => Render.gapText g1 ++ (w ++ (Render.gapText g2 ++ (a.text ++ rest.text)))
+    | .consRe g1 _ w g2 src rest =>
+      Render.gapText g1 ++ (w ++ (Render.gapText g2 ++ ('/' :: (escapeSlashes src ++ '/' :: rest.text))))
 end
 
 /-- The value of an integer literal: `IntegerLiteral` up to `MaxInt64`, `UnsignedLiteral` above. -/
@@ -353,6 +433,7 @@ mutual
   def SOps.erase : SOps → Expr → Expr
     | .nil, root => root
     | .cons _ op _ _ a rest, root => rest.erase (insertOp root op a.erase)
+    | .consRe _ op _ _ src rest, root => rest.erase (insertOp root op (.regex src))
 end
 
 mutual
@@ -371,6 +452,8 @@ mutual
     | .cons g1 op w g2 a rest, k =>
       Render.gapOK g1 && Render.gapOK g2 && opSpellB op w && !op.isRegexOp &&
         opEndB op w (Render.gapText g2 ++ (a.text ++ (rest.text ++ k))) && a.legal (rest.text ++ k) && rest.legal k
+    | .consRe g1 op w g2 src rest, k =>
+      Render.gapOK g1 && Render.gapOK g2 && opSpellB op w && op.isRegexOp && RT.regexB src && rest.legal k
 end
 
 /-! ## Part 4: the parser on spelled expressions -/
@@ -404,7 +487,7 @@ theorem first_eof : First [eofRune] .EOF := by
 theorem scanIW_piece (s : PState) (g : Render.Gap) (piece k : Str) (T : Token) (L : Str)
     (hat : RT.At s (Render.gapText g ++ (piece ++ k))) (hok : Render.gapOK g = true) (hsc : ScansAs piece k T L) :
     ∃ lx s1 r1, scanIW.run s = .ok (lx, s1) ∧ lx.tok = T ∧ lx.lit = L ∧ RT.Just s1 lx r1 ∧ RT.Rem r1 k ∧
-      RT.Same s s1 := by
+      Keeps s s1 := by
   obtain ⟨r0, hl, hr⟩ := hat
   have hF := first_of_scansAs hsc
   obtain ⟨s1, r', e, hr', hj, hs⟩ := scanIW_gap s r0 g _ hl hr hok hF.1 (fun r hr => by rw [hF.2.2 r hr]; exact hF.2.1)
@@ -418,7 +501,7 @@ theorem scanIW_piece (s : PState) (g : Render.Gap) (piece k : Str) (T : Token) (
 /-- Looking at the token after a gap and pushing it back: the parser stands before that token. -/
 theorem scanIW_stop (s : PState) (g : Render.Gap) (post : Str) (T : Token)
     (hat : RT.At s (Render.gapText g ++ post)) (hok : Render.gapOK g = true) (hF : First post T) :
-    ∃ lx s1, scanIW.run s = .ok (lx, s1) ∧ lx.tok = T ∧ RT.At (unsc s1) post ∧ RT.Same s s1 := by
+    ∃ lx s1, scanIW.run s = .ok (lx, s1) ∧ lx.tok = T ∧ RT.At (unsc s1) post ∧ Keeps s s1 := by
   obtain ⟨r0, hl, hr⟩ := hat
   obtain ⟨s1, r', e, hr', hj, hs⟩ := scanIW_gap s r0 g _ hl hr hok hF.1 (fun r hr => by rw [hF.2.2 r hr]; exact hF.2.1)
   exact ⟨_, s1, e, hF.2.2 r' hr', ⟨r', RT.look_unsc s1 r' hj, hr'⟩, hs⟩
@@ -459,6 +542,39 @@ theorem SOps.legal_cons {g1 : Render.Gap} {op : Token} {w : Str} {g2 : Render.Ga
   obtain ⟨⟨⟨⟨⟨⟨h1, h2⟩, h3⟩, h4⟩, h5⟩, h6⟩, h7⟩ := h
   exact ⟨h1, h2, h3, h4, h5, h6, h7⟩
 
+theorem SOps.text_consRe (g1 : Render.Gap) (op : Token) (w : Str) (g2 : Render.Gap) (src : Str) (rest : SOps) (k : Str) :
+    (SOps.consRe g1 op w g2 src rest).text ++ k =
+      Render.gapText g1 ++ (w ++ (Render.gapText g2 ++ ('/' :: (escapeSlashes src ++ '/' :: (rest.text ++ k))))) := by
+  simp [SOps.text, List.append_assoc]
+
+theorem SOps.legal_consRe {g1 : Render.Gap} {op : Token} {w : Str} {g2 : Render.Gap} {src : Str} {rest : SOps} {k : Str}
+    (h : (SOps.consRe g1 op w g2 src rest).legal k = true) :
+    Render.gapOK g1 = true ∧ Render.gapOK g2 = true ∧ opSpellB op w = true ∧ op.isRegexOp = true ∧
+      RT.regexB src = true ∧ rest.legal k = true := by
+  rw [SOps.legal] at h
+  simp only [Bool.and_eq_true] at h
+  obtain ⟨⟨⟨⟨⟨h1, h2⟩, h3⟩, h4⟩, h5⟩, h6⟩ := h
+  exact ⟨h1, h2, h3, h4, h5, h6⟩
+
+/-- The spelling of a regex operator is `=~` / `!~`; nothing that follows can extend it. -/
+theorem opEndB_regex {op : Token} {w : Str} (h1 : opSpellB op w = true) (h2 : op.isRegexOp = true) (k : Str) :
+    opEndB op w k = true := by
+  have hop : op = .EQREGEX ∨ op = .NEQREGEX := by
+    cases op <;> first | exact Or.inl rfl | exact Or.inr rfl | (exfalso; revert h2; decide)
+  unfold opSpellB at h1
+  unfold opEndB
+  rcases hop with rfl | rfl
+  · rw [if_neg (by decide)] at h1 ⊢
+    have hm := of_decide_eq_true h1
+    simp only [symOps, List.mem_cons, Prod.mk.injEq, List.not_mem_nil, or_false, reduceCtorEq, false_and, false_or,
+      true_and, or_false] at hm
+    subst hm; rfl
+  · rw [if_neg (by decide)] at h1 ⊢
+    have hm := of_decide_eq_true h1
+    simp only [symOps, List.mem_cons, Prod.mk.injEq, List.not_mem_nil, or_false, reduceCtorEq, false_and, false_or,
+      true_and, or_false] at hm
+    subst hm; rfl
+
 /-- What follows an operand inside a chain: a gap and then an operator — or what follows the chain. -/
 theorem ops_follow (ops : SOps) (g : Render.Gap) (post : Str) (T : Token) (hok : Render.gapOK g = true)
     (hF : First post T) (hT : AfterTok T) (hl : ops.legal (Render.gapText g ++ post) = true) :
@@ -469,6 +585,10 @@ theorem ops_follow (ops : SOps) (g : Render.Gap) (post : Str) (T : Token) (hok :
   | cons g1 op w g2 a rest =>
     obtain ⟨h1, _, h3, _, h5, _, _⟩ := SOps.legal_cons hl
     exact ⟨g1, _, op, SOps.text_cons .., h1, first_of_scansAs (scansAs_op op w _ h3 h5),
+      afterTok_of_operator (opSpellB_isOperator h3)⟩
+  | consRe g1 op w g2 src rest =>
+    obtain ⟨h1, _, h3, h4, _, _⟩ := SOps.legal_consRe hl
+    exact ⟨g1, _, op, SOps.text_consRe .., h1, first_of_scansAs (scansAs_op op w _ h3 (opEndB_regex h3 h4 _)),
       afterTok_of_operator (opSpellB_isOperator h3)⟩
 
 theorem parseIntegerLit_zeroPad (z n : Nat) (h : (n : Int) ≤ maxUInt64) (pos : Pos) (s : PState) :
@@ -504,41 +624,68 @@ theorem unary_int (F : Nat) (s s1 : PState) (lx : Lexeme) (r1 : Cursor) (z n : N
   subst htok hlit
   exact parseIntegerLit_zeroPad z n hn pos s1
 
+/-- `RT.unary_ident_plain` with the ring bound: an identifier followed by neither `(`, `.` nor `::`
+is a plain variable reference; the token after it stays pushed back. -/
+theorem unary_ident_plain' (F : Nat) (s s1 : PState) (lx : Lexeme) (r1 : Cursor)
+    (h1 : scanIW.run s = .ok (lx, s1)) (hj : RT.Just s1 lx r1) (htok : lx.tok = .IDENT)
+    (hb : (scan r1).1.tok ≠ .BOUNDPARAM) (hlp : (scan r1).1.tok ≠ .LPAREN) (hd : (scan r1).1.tok ≠ .DOT)
+    (hcc : (scan r1).1.tok ≠ .DOUBLECOLON) :
+    ∃ s', (parseUnaryExpr (F + 1)).run s = .ok (.varRef lx.lit .Unknown, s') ∧ RT.Look s' r1 ∧ Keeps s1 s' := by
+  have hsig : lx.tok ≠ .BOUNDPARAM ∧ lx.tok ≠ .WS ∧ lx.tok ≠ .COMMENT := by rw [htok]; decide
+  have hnp : ¬ lx.tok = .LPAREN := by rw [htok]; decide
+  obtain ⟨hn0, hb0, hr0⟩ := hj
+  subst hr0
+  have hps := pscan_fresh s1 hn0 hb
+  refine ⟨{ unsc (unsc { s1 with r := (scan s1.r).2, buf := ((scan s1.r).1 :: s1.buf).take 3 }) with n := 1 }, ?_,
+    Or.inr ⟨rfl, by simp [unsc], rfl⟩, ⟨rfl, rfl⟩, fun _ => by simp only [unsc, List.length_take]; omega⟩
+  rw [parseUnaryExpr, P.run_bind _ _ _ _ _ h1, P.run_ite, if_neg hnp, P.run_bind _ _ _ _ _ (RT.unscan_run' s1),
+    P.run_bind _ _ _ _ _ (RT.scanIW_redeliver s1 lx s1.r ⟨hn0, hb0, rfl⟩ hsig.1 hsig.2.1 hsig.2.2)]
+  have hvr := RT.parseVarRef_plain
+    (unsc (unsc { s1 with r := (scan s1.r).2, buf := ((scan s1.r).1 :: s1.buf).take 3 })) lx (scan s1.r).1
+    (by simp [unsc, hn0]) (by simp [unsc, hb0]) (by simp [unsc]) htok hb hd hcc
+  obtain ⟨tok, pos, lit⟩ := lx
+  simp only at htok
+  subst htok
+  show (pscan >>= _).run s1 = _
+  rw [P.run_bind _ _ _ _ _ hps, P.run_ite, if_neg hlp, P.run_bind _ _ _ _ _ (RT.unscan_run' _),
+    P.run_bind _ _ _ _ _ (RT.unscan_run' _)]
+  exact hvr
+
 /-- `parseUnaryExpr` on a spelled operand behind a gap and before a gap and a token. -/
 def SpecU (F : Nat) : Prop := ∀ (s : PState) (g : Render.Gap) (a : SAtom) (g' : Render.Gap) (post : Str) (T : Token),
-  Render.gapOK g = true → Render.gapOK g' = true → First post T → AfterTok T →
+  Render.gapOK g = true → Render.gapOK g' = true → First post T → AfterTok T → s.buf.length ≤ 3 →
   a.legal (Render.gapText g' ++ post) = true → RT.At s (Render.gapText g ++ (a.text ++ (Render.gapText g' ++ post))) →
-  wp (parseUnaryExpr F) s (fun e' s' => e' = a.erase ∧ RT.At s' (Render.gapText g' ++ post) ∧ RT.Same s s') RT.IsFuel
+  wp (parseUnaryExpr F) s (fun e' s' => e' = a.erase ∧ RT.At s' (Render.gapText g' ++ post) ∧ Keeps s s') RT.IsFuel
 
 /-- The loop of `ParseExpr` on the spelled operators and operands; it consumes the gap before the
 token at which it stops. -/
 def SpecL (F : Nat) : Prop := ∀ (s : PState) (root : Expr) (ops : SOps) (g : Render.Gap) (post : Str) (T : Token),
-  Render.gapOK g = true → First post T → StopTok T → ops.legal (Render.gapText g ++ post) = true →
+  Render.gapOK g = true → First post T → StopTok T → s.buf.length ≤ 3 → ops.legal (Render.gapText g ++ post) = true →
   RT.At s (ops.text ++ (Render.gapText g ++ post)) →
-  wp (exprLoop F root) s (fun e' s' => e' = ops.erase root ∧ RT.At s' post ∧ RT.Same s s') RT.IsFuel
+  wp (exprLoop F root) s (fun e' s' => e' = ops.erase root ∧ RT.At s' post ∧ Keeps s s') RT.IsFuel
 
 /-- `ParseExpr` on a spelled chain. -/
 def SpecE (F : Nat) : Prop := ∀ (s : PState) (g0 : Render.Gap) (a : SAtom) (ops : SOps) (g : Render.Gap) (post : Str)
-  (T : Token), Render.gapOK g0 = true → Render.gapOK g = true → First post T → StopTok T →
+  (T : Token), Render.gapOK g0 = true → Render.gapOK g = true → First post T → StopTok T → s.buf.length ≤ 3 →
   a.legal (ops.text ++ (Render.gapText g ++ post)) = true → ops.legal (Render.gapText g ++ post) = true →
   RT.At s (Render.gapText g0 ++ (a.text ++ (ops.text ++ (Render.gapText g ++ post)))) →
-  wp (parseExpr F) s (fun e' s' => e' = ops.erase a.erase ∧ RT.At s' post ∧ RT.Same s s') RT.IsFuel
+  wp (parseExpr F) s (fun e' s' => e' = ops.erase a.erase ∧ RT.At s' post ∧ Keeps s s') RT.IsFuel
 
 theorem specE_step (F : Nat) (ihU : SpecU F) (ihL : SpecL F) : SpecE (F + 1) := by
-  intro s g0 a ops g post T hg0 hg hF hT hla hlo hat
+  intro s g0 a ops g post T hg0 hg hF hT hb hla hlo hat
   obtain ⟨g', post', T', htxt, hg', hF', hT'⟩ := ops_follow ops g post T hg hF hT.2 hlo
   rw [parseExpr, wp_bind]
   rw [htxt] at hat hla
-  refine wp_mono (ihU s g0 a g' post' T' hg0 hg' hF' hT' hla hat) ?_ (fun _ h => h)
+  refine wp_mono (ihU s g0 a g' post' T' hg0 hg' hF' hT' hb hla hat) ?_ (fun _ h => h)
   intro e1 s1 ⟨he1, hat1, hsame1⟩
   subst he1
   rw [← htxt] at hat1
-  refine wp_mono (ihL s1 a.erase ops g post T hg hF hT hlo hat1) ?_ (fun _ h => h)
+  refine wp_mono (ihL s1 a.erase ops g post T hg hF hT (hsame1.2 hb) hlo hat1) ?_ (fun _ h => h)
   intro e' s2 ⟨he', hat2, hsame2⟩
   exact ⟨he', hat2, hsame1.trans hsame2⟩
 
 theorem specL_step (F : Nat) (ihU : SpecU F) (ihL : SpecL F) : SpecL (F + 1) := by
-  intro s root ops g post T hg hF hT hlo hat
+  intro s root ops g post T hg hF hT hb hlo hat
   rw [exprLoop, wp_bind]
   cases ops with
   | nil =>
@@ -547,7 +694,7 @@ theorem specL_step (F : Nat) (ihU : SpecU F) (ihL : SpecL F) : SpecL (F + 1) := 
     rw [wp_of_run_ok hrun]
     have hnop : (!lx.tok.isOperator) = true := by rw [htok, hT.1]; rfl
     rw [wp_ite, if_pos hnop, wp_bind, unscan_wp, wp_pure]
-    exact ⟨by simp [SOps.erase], hat1, hsame.trans (RT.unsc_same s1)⟩
+    exact ⟨by simp [SOps.erase], hat1, hsame.trans (keeps_unsc s1)⟩
   | cons g1 op w g2 a rest =>
     obtain ⟨h1, h2, h3, h4, h5, h6, h7⟩ := SOps.legal_cons hlo
     rw [SOps.text_cons] at hat
@@ -563,18 +710,41 @@ theorem specL_step (F : Nat) (ihU : SpecU F) (ihL : SpecL F) : SpecL (F + 1) := 
     have hat1 : RT.At s1 (Render.gapText g2 ++ (a.text ++ (Render.gapText g' ++ post'))) := by
       rw [← htxt]; exact hj.at hrem
     rw [htxt] at h6
-    refine wp_mono (ihU s1 g2 a g' post' T' h2 hg' hF' hT' h6 hat1) ?_ (fun _ h => h)
+    refine wp_mono (ihU s1 g2 a g' post' T' h2 hg' hF' hT' (hsame.2 hb) h6 hat1) ?_ (fun _ h => h)
     intro e1 s2 ⟨he1, hat2, hsame2⟩
     subst he1
     rw [← htxt] at hat2
-    refine wp_mono (ihL s2 _ rest g post T hg hF hT h7 hat2) ?_ (fun _ h => h)
+    refine wp_mono (ihL s2 _ rest g post T hg hF hT (hsame2.2 (hsame.2 hb)) h7 hat2) ?_ (fun _ h => h)
+    intro e' s3 ⟨he', hat3, hsame3⟩
+    exact ⟨by rw [he', htok]; simp [SOps.erase], hat3, (hsame.trans hsame2).trans hsame3⟩
+  | consRe g1 op w g2 src rest =>
+    obtain ⟨h1, h2, h3, h4, h5, h7⟩ := SOps.legal_consRe hlo
+    rw [SOps.text_consRe] at hat
+    have hop := opSpellB_isOperator h3
+    obtain ⟨lx, s1, r1, hrun, htok, _, hj, hrem, hsame⟩ := scanIW_piece s g1 w _ op [] hat h1
+      (scansAs_op op w _ h3 (opEndB_regex h3 h4 _))
+    rw [wp_of_run_ok hrun]
+    have hnop : ¬ (!lx.tok.isOperator) = true := by rw [htok, hop]; simp
+    rw [wp_ite, if_neg hnop]
+    dsimp only
+    have hch1 : s1.r.chars = Render.gapText g2 ++ ('/' :: (escapeSlashes src ++ '/' :: (rest.text ++
+        (Render.gapText g ++ post)))) := by
+      rw [hj.2.2]
+      cases g2 with
+      | nil => exact hrem.chars_of_cons (by decide)
+      | cons i g2' => exact gap_post_chars hrem h2
+    obtain ⟨lx2, s2, hrun2, hj2, hch2, hsame2⟩ := parseRegex_gap_text s1 g2 src _ hj.1 (hsame.2 hb) h2 h5 hch1
+    rw [wp_ite, if_pos (by rw [htok]; exact h4), wp_bind, wp_of_run_ok hrun2]
+    dsimp only
+    rw [wp_bind, wp_pure]
+    refine wp_mono (ihL s2 _ rest g post T hg hF hT (hsame2.2 (hsame.2 hb)) h7 (hj2.at (Or.inl hch2))) ?_ (fun _ h => h)
     intro e' s3 ⟨he', hat3, hsame3⟩
     exact ⟨by rw [he', htok]; simp [SOps.erase], hat3, (hsame.trans hsame2).trans hsame3⟩
 
 theorem first_rparen (k : Str) : First (')' :: k) .RPAREN := first_of_scansAs (scansAs_rparen k)
 
 theorem specU_step (F : Nat) (ihE : SpecE F) : SpecU (F + 1) := by
-  intro s g a g' post T hg hg' hF hT hleg hat
+  intro s g a g' post T hg hg' hF hT hb hleg hat
   cases a with
   | ref sp n =>
     have hsc : ScansAs (Render.spellName sp n) (Render.gapText g' ++ post) .IDENT n := by
@@ -594,7 +764,7 @@ theorem specU_step (F : Nat) (ihE : SpecE F) : SpecU (F + 1) := by
       · exact h1 (e.symm.trans h)
       · exact h2 (e.symm.trans h)
       · exact h3 (e.symm.trans h)
-    obtain ⟨s', hrun', hlook, hsame'⟩ := RT.unary_ident_plain F s s1 lx r1 hrun hj htok
+    obtain ⟨s', hrun', hlook, hsame'⟩ := unary_ident_plain' F s s1 lx r1 hrun hj htok
       (hne _ (Ne.symm hF.2.1.1) (by decide) (by decide)) (hne _ (Ne.symm hT.1) (by decide) (by decide))
       (hne _ (Ne.symm hT.2.1) (by decide) (by decide)) (hne _ (Ne.symm hT.2.2) (by decide) (by decide))
     rw [wp_of_run_ok hrun']
@@ -624,7 +794,7 @@ theorem specU_step (F : Nat) (ihE : SpecE F) : SpecU (F + 1) := by
     obtain ⟨lx, s1, r1, hrun, htok, _, hj, hrem, hsame⟩ := scanIW_piece s g _ _ _ _ hat' hg (scansAs_lparen _)
     rw [parseUnaryExpr, wp_bind, wp_of_run_ok hrun, wp_ite, if_pos htok, wp_bind]
     refine wp_mono (ihE s1 g1 a1 ops g2 _ .RPAREN hg1 hg2 (first_rparen _)
-      ⟨rfl, by decide, by decide, by decide⟩ hla hlo (hj.at hrem)) ?_ (fun _ h => h)
+      ⟨rfl, by decide, by decide, by decide⟩ (hsame.2 hb) hla hlo (hj.at hrem)) ?_ (fun _ h => h)
     intro e' s2 ⟨he', hat2, hsame2⟩
     subst he'
     obtain ⟨lx2, s3, r3, hrun3, htok3, _, hj3, hrem3, hsame3⟩ := scanIW_piece s2 [] [')'] _ _ _ hat2 rfl
@@ -639,9 +809,9 @@ theorem specs (F : Nat) : SpecE F ∧ SpecL F ∧ SpecU F := by
   induction F with
   | zero =>
     refine ⟨?_, ?_, ?_⟩
-    · intro s g0 a ops g post T _ _ _ _ _ _ _; rw [parseExpr, wp_throw]; rfl
-    · intro s root ops g post T _ _ _ _ _; rw [exprLoop, wp_throw]; rfl
-    · intro s g a g' post T _ _ _ _ _ _; rw [parseUnaryExpr, wp_throw]; rfl
+    · intro s g0 a ops g post T _ _ _ _ _ _ _ _; rw [parseExpr, wp_throw]; rfl
+    · intro s root ops g post T _ _ _ _ _ _; rw [exprLoop, wp_throw]; rfl
+    · intro s g a g' post T _ _ _ _ _ _ _; rw [parseUnaryExpr, wp_throw]; rfl
   | succ F ih =>
     obtain ⟨ihE, ihL, ihU⟩ := ih
     exact ⟨specE_step F ihU ihL, specL_step F ihU ihL, specU_step F ihE⟩
@@ -671,12 +841,12 @@ def SExpr.legal (e : SExpr) (post : Str) : Bool :=
 (whose first token `T` is no binary operator and none of `(`, `.`, `::`), `ParseExpr` returns the
 denoted expression and stands before `post` — it has looked at `T` and pushed it back. -/
 theorem parseExpr_render_state (F : Nat) (s : PState) (e : SExpr) (post : Str) (T : Token) (hF : First post T)
-    (hT : StopTok T) (hl : e.legal post = true) (hat : RT.At s (e.text ++ post)) :
-    wp (parseExpr F) s (fun e' s' => e' = e.erase ∧ RT.At s' post ∧ RT.Same s s') RT.IsFuel := by
+    (hT : StopTok T) (hb : s.buf.length ≤ 3) (hl : e.legal post = true) (hat : RT.At s (e.text ++ post)) :
+    wp (parseExpr F) s (fun e' s' => e' = e.erase ∧ RT.At s' post ∧ Keeps s s') RT.IsFuel := by
   unfold SExpr.legal at hl
   simp only [Bool.and_eq_true] at hl
   obtain ⟨⟨⟨h1, h2⟩, h3⟩, h4⟩ := hl
-  refine (specs F).1 s e.g0 e.a e.ops e.g post T h1 h2 hF hT h3 h4 ?_
+  refine (specs F).1 s e.g0 e.a e.ops e.g post T h1 h2 hF hT hb h3 h4 ?_
   simpa [SExpr.text, List.append_assoc] using hat
 
 /-- **Free spelling of expressions.** Every legal spelling of `e` — any gaps, `AND` / `OR` in any
@@ -690,7 +860,7 @@ theorem parseExprText_render (e : SExpr) (text : Str) (params : List (Str × Bou
     rw [chars_ofRunes, htext]
   have hat : RT.At (PState.init text params tbl) (e.text ++ [eofRune]) := ⟨_, Or.inl ⟨rfl, rfl⟩, Or.inl hch⟩
   have hwp := parseExpr_render_state (fuelFor text) _ e [eofRune] .EOF first_eof
-    ⟨rfl, by decide, by decide, by decide⟩ hl hat
+    ⟨rfl, by decide, by decide, by decide⟩ (Nat.zero_le _) hl hat
   have htot := parseExprText_total text params tbl
   unfold parseExprText at htot ⊢
   unfold wp at hwp
@@ -716,11 +886,13 @@ theorem parseExprText_render (e : SExpr) (text : Str) (params : List (Str × Bou
 def SOps.pairs : SOps → List (Token × Expr)
   | .nil => []
   | .cons _ op _ _ a rest => (op, a.erase) :: rest.pairs
+  | .consRe _ op _ _ src rest => (op, .regex src) :: rest.pairs
 
 theorem SOps.erase_fold : ∀ (ops : SOps) (root : Expr),
     ops.erase root = ops.pairs.foldl (fun t p => insertOp t p.1 p.2) root
   | .nil, root => by simp [SOps.erase, SOps.pairs]
   | .cons _ op _ _ a rest, root => by simp [SOps.erase, SOps.pairs, SOps.erase_fold rest]
+  | .consRe _ op _ _ src rest, root => by simp [SOps.erase, SOps.pairs, SOps.erase_fold rest]
 
 theorem SAtom.erase_nb (a : SAtom) : RT.NB a.erase := by
   intro op l r h
@@ -737,6 +909,12 @@ theorem SOps.pairs_nb : ∀ (ops : SOps), ∀ p ∈ ops.pairs, RT.NB p.2
     simp only [SOps.pairs, List.mem_cons] at hp
     rcases hp with rfl | hp
     · exact a.erase_nb
+    · exact SOps.pairs_nb rest p hp
+  | .consRe _ op _ _ src rest => by
+    intro p hp
+    simp only [SOps.pairs, List.mem_cons] at hp
+    rcases hp with rfl | hp
+    · intro o l r h; cases h
     · exact SOps.pairs_nb rest p hp
 
 /-- **The denoted tree.** `erase` is the image of C03's `parseChain` over the operands and operators
